@@ -37,6 +37,17 @@ def mutants(path):
                 else:
                     new=code[:m.start()]+rep+code[m.end():]
                     out.append((i,l,new))
+        # an error suppressed at a return; a condition negated; a length shortened
+        m=re.match(r'^(\s*return .*), err$',code)
+        if m: out.append((i,l,m.group(1)+', nil'))
+        m=re.match(r'^(\s*(?:} else )?if )([^;{]+)( \{)$',code)
+        if m and ':=' not in m.group(2): out.append((i,l,m.group(1)+'!('+m.group(2)+')'+m.group(3)))
+        for m in re.finditer(r'\blen\((\w+)\)',code):
+            out.append((i,l,code[:m.end()]+'-1'+code[m.end():]))
+        for m in re.finditer(r'(?<![\w.])(\d+)(?![\w.x])',code):
+            v=int(m.group(1))
+            if v<=64 and not code.strip().startswith('_'):
+                out.append((i,l,code[:m.start()]+str(v+1)+code[m.end():]))
         # statement deletion for simple calls / assignments (not declarations, not control)
         if re.match(r'^\s+[\w\.\[\]]+(\(.*\)|\s*=\s*.+|\s*\+\+)$',code) and ':=' not in code and 'return' not in code:
             out.append((i,l,re.match(r'^\s*',code).group(0)+'_ = 0'))
@@ -71,7 +82,7 @@ if __name__=='__main__':
     files=args or sorted(f for f in __import__('glob').glob('/repo/*.go') if not f.endswith('_test.go'))
     ms=[]
     for f in files: ms+=mutants(f if f.startswith('/') else '/repo/'+f)
-    random.seed(1); random.shuffle(ms)
+    random.seed(int(os.environ.get('MUTSEED','1'))); random.shuffle(ms)
     if mx: ms=ms[:mx]
     print('mutants generated:',len(ms),file=sys.stderr)
     surv=det=0
